@@ -51,27 +51,35 @@ def _build_and_audit(pid):
     theorems = registry.THEOREMS.get(pid, [])
     status = {}
     if theorems:
-        mods = sorted({m for _, m in theorems})
-        src_imports = "".join(f"import {m}\n" for m in mods)
-        path = os.path.join(common.LEAN_DIR, f".audit_{pid}.lean")
-        with open(path, "w", encoding="utf-8") as f:
-            f.write(src_imports + "".join(f"#print axioms {t}\n" for t, _ in theorems))
-        try:
-            rr = common.run(["lake", "env", "lean", path], cwd=common.LEAN_DIR, timeout=1800)
-        finally:
-            os.remove(path)
-        out = rr.stdout + rr.stderr
+        # one audit per module: a module that no longer builds takes only its own theorems down
         import re
-        for t, m in theorems:
-            mm = re.search(r"'" + re.escape(t) + r"' depends on axioms: \[(.*?)\]", out, flags=re.S)
-            if mm:
-                ax = [a.strip() for a in mm.group(1).split(",") if a.strip()]
-                bad = [a for a in ax if a not in common.ALLOWED_AXIOMS]
-                status[t] = "ok" if not bad else f"depends on axioms {bad}"
-            elif re.search(r"'" + re.escape(t) + r"' does not depend on any axioms", out):
-                status[t] = "ok"
-            else:
-                status[t] = f"theorem missing or its module ({m}) does not build"
+        import concurrent.futures
+        mods = sorted({m for _, m in theorems})
+
+        def audit(mod):
+            ths = [t for t, m in theorems if m == mod]
+            path = os.path.join(common.LEAN_DIR, f".audit_{pid}_{mod.replace('.', '_')}.lean")
+            with open(path, "w", encoding="utf-8") as f:
+                f.write(f"import {mod}\n" + "".join(f"#print axioms {t}\n" for t in ths))
+            try:
+                rr = common.run(["lake", "env", "lean", path], cwd=common.LEAN_DIR, timeout=1800)
+            finally:
+                os.remove(path)
+            return mod, ths, rr.stdout + rr.stderr
+
+        with concurrent.futures.ThreadPoolExecutor(max_workers=8) as ex:
+            results = list(ex.map(audit, mods))
+        for mod, ths, out in results:
+            for t in ths:
+                mm = re.search(r"'" + re.escape(t) + r"' depends on axioms: \[(.*?)\]", out, flags=re.S)
+                if mm:
+                    ax = [a.strip() for a in mm.group(1).split(",") if a.strip()]
+                    bad = [a for a in ax if a not in common.ALLOWED_AXIOMS]
+                    status[t] = "ok" if not bad else f"depends on axioms {bad}"
+                elif re.search(r"'" + re.escape(t) + r"' does not depend on any axioms", out):
+                    status[t] = "ok"
+                else:
+                    status[t] = f"theorem missing or its module ({mod}) does not build"
     hits = common.grep_forbidden()
     if hits:
         status["<source-audit>"] = "forbidden construct: " + "; ".join(hits[:5])
